@@ -58,6 +58,10 @@ func flight2Parse(
 		return 0, &alert.Alert{Level: alert.Fatal, Description: alert.IllegalParameter}, err
 	}
 	state.RemoteClientHelloSnapshots = snapshots
+	// Negotiate from this ClientHello, the one the Finished messages cover.
+	if dtlsAlert, err := applyClientHelloExtensions(state, cfg, clientHello); err != nil {
+		return 0, dtlsAlert, err
+	}
 
 	return Flight4, nil, nil
 }
